@@ -55,9 +55,14 @@ class Check:
         self.t0 = time.time()
         self.quiet = quiet
         self.selftest: Optional[Dict[str, Any]] = None
+        self._seen_keys: Dict[tuple, int] = {}
 
     # ---------------------------------------------------------------- facts
     def ob(self, rule: str, key: str, ok: bool, detail: str = '', loc: str = '', **extra: Any) -> bool:
+        n = self._seen_keys.get((rule, key), 0) + 1
+        self._seen_keys[(rule, key)] = n
+        if n > 1:
+            key = f'{key} #{n}'
         self.obligations.append(Obligation(rule, key, bool(ok), detail, loc, extra))
         return bool(ok)
 
